@@ -35,6 +35,7 @@ type Case struct {
 	All     bool              `json:"all"`
 	Engines map[string]EngObs `json:"engines"`
 	Wasm    string            `json:"wasm"`
+	Lib     string            `json:"lib,omitempty"` // hex of a second module "lib" instantiated first (cross-module cases)
 }
 
 type rec struct {
@@ -48,8 +49,8 @@ type rec struct {
 }
 
 func (r *rec) fa(def api.FunctionDefinition) int {
-	if def.ModuleName() == "env" {
-		return int(def.Index())
+	if def.ModuleName() == "lib" {
+		return 100 + int(def.Index())
 	}
 	return int(def.Index())
 }
@@ -104,13 +105,13 @@ func (l lst) Abort(ctx context.Context, mod api.Module, def api.FunctionDefiniti
 
 func (r *rec) NewFunctionListener(def api.FunctionDefinition) experimental.FunctionListener {
 	fa := r.fa(def)
-	if fa < len(r.mask) && r.mask[fa] {
+	if fa >= 100 || (fa < len(r.mask) && r.mask[fa]) {
 		return lst{r, fa}
 	}
 	return nil
 }
 
-func runOn(engine string, m *c.ModSpec, bin []byte, calls [][]uint64, mask []bool, all bool) (eo EngObs) {
+func runOn(engine string, m *c.ModSpec, bin []byte, calls [][]uint64, mask []bool, all bool, lib []byte) (eo EngObs) {
 	defer func() {
 		if e := recover(); e != nil {
 			eo.Err = fmt.Sprint("PANIC: ", e)
@@ -134,6 +135,12 @@ func runOn(engine string, m *c.ModSpec, bin []byte, calls [][]uint64, mask []boo
 			eo.Err = "env: " + err.Error()
 			return
 		}
+		if lib != nil {
+			if _, err := rt.InstantiateWithConfig(ctx, lib, wazero.NewModuleConfig().WithName("lib")); err != nil {
+				eo.Err = "instantiate lib: " + err.Error()
+				return
+			}
+		}
 		mod, err := rt.InstantiateWithConfig(ctx, bin, wazero.NewModuleConfig().WithName("m"))
 		if err != nil {
 			eo.Err = "instantiate: " + err.Error()
@@ -145,6 +152,8 @@ func runOn(engine string, m *c.ModSpec, bin []byte, calls [][]uint64, mask []boo
 			res, err := mod.ExportedFunction(fmt.Sprintf("f%d", fi)).Call(ctx, cl[1:]...)
 			if err != nil {
 				obs = append(obs, c.CallObs{Trap: c.TrapClass(err)})
+			} else if lib != nil {
+				obs = append(obs, c.CallObs{Res: c.MaskRes(res, []byte{c.I32})})
 			} else {
 				obs = append(obs, c.CallObs{Res: c.MaskRes(res, m.FuncSig(fi).R)})
 			}
@@ -176,6 +185,7 @@ func main() {
 	cases := make([]Case, *n)
 	mods := make([]*c.ModSpec, *n)
 	bins := make([][]byte, *n)
+	libs := make([][]byte, *n)
 	for i := 0; i < *n; i++ {
 		g := &c.Gen{R: rng, OOBRate: 1 + rng.Intn(2), TrapRate: 3 + rng.Intn(6)}
 		m := g.Program(3 + rng.Intn(4))
@@ -230,7 +240,49 @@ func main() {
 		calls := [][]uint64{{1, 45, 1}, {1, 60, 0}, {1, 33, 1}}
 		cases = append(cases, Case{ID: len(cases), Store: m.CoqStore(), HRes: [][]int{{32}}, Calls: calls, Mask: []bool{true, true}, All: true,
 			Wasm: hex.EncodeToString(bin), Engines: map[string]EngObs{}})
-		mods, bins = append(mods, m), append(bins, bin)
+		mods, bins, libs = append(mods, m), append(bins, bin), append(libs, nil)
+	}
+	// fixed cross-module cases: a listened function calls a listened function of ANOTHER module and then returns through
+	// each kind of return path (end, br, taken/untaken br_if to the function label, br_table, return)
+	{
+		lib := &c.Mod{}
+		lib.Types = [][]byte{c.FT(c.B(c.I32), c.B(c.I32))}
+		lib.Funcs = [][]byte{c.U32(0), c.U32(0)}
+		lib.Mems = [][]byte{c.MemLimits(1, nil)}
+		lib.Exports = [][]byte{c.Export("g", 0, 0), c.Export("g2", 0, 1)}
+		lib.Codes = [][]byte{
+			c.Code(nil, c.LocalGet(0), c.I32Const(1), c.B(0x6a)),
+			c.Code(nil, c.I32Const(0), c.B(0x40, 0), c.B(0x1a), c.LocalGet(0), c.Call(0), c.I32Const(2), c.B(0x6c)),
+		}
+		libBin := lib.Bytes()
+		mm := &c.Mod{}
+		mm.Types = [][]byte{c.FT(c.B(c.I32), c.B(c.I32))}
+		mm.Imports = [][]byte{c.ImportFunc("lib", "g", 0), c.ImportFunc("lib", "g2", 0)}
+		bodies := [][]byte{
+			c.Cat(c.LocalGet(0), c.Call(0)),                                                                // end
+			c.Cat(c.LocalGet(0), c.Call(1), c.B(0x0c, 0)),                                                  // br 0
+			c.Cat(c.LocalGet(0), c.Call(0), c.LocalGet(0), c.B(0x0d, 0), c.B(0x1a), c.I32Const(99)),        // br_if 0 (taken iff x != 0)
+			c.Cat(c.LocalGet(0), c.Call(1), c.B(0x0f)),                                                     // return
+			c.Cat(c.LocalGet(0), c.Call(0), c.I32Const(0), c.B(0x0e, 0, 0)),                                // br_table
+			c.Cat(c.LocalGet(0), c.Call(2), c.LocalGet(0), c.B(0x0d, 0), c.B(0x1a), c.LocalGet(0), c.Call(1)), // nested local call then br_if
+		}
+		for i, b := range bodies {
+			mm.Funcs = append(mm.Funcs, c.U32(0))
+			mm.Codes = append(mm.Codes, c.Code(nil, b))
+			mm.Exports = append(mm.Exports, c.Export(fmt.Sprintf("f%d", i+2), 0, uint32(i+2)))
+		}
+		mainBin := mm.Bytes()
+		var calls [][]uint64
+		for i := range bodies {
+			calls = append(calls, []uint64{uint64(i + 2), 5}, []uint64{uint64(i + 2), 0})
+		}
+		mask := make([]bool, 2+len(bodies))
+		for i := range mask {
+			mask[i] = true
+		}
+		cases = append(cases, Case{ID: len(cases), Store: "", HRes: nil, Calls: calls, Mask: mask, All: false,
+			Wasm: hex.EncodeToString(mainBin), Lib: hex.EncodeToString(libBin), Engines: map[string]EngObs{}})
+		mods, bins, libs = append(mods, &c.ModSpec{}), append(bins, mainBin), append(libs, libBin)
 	}
 	var wg sync.WaitGroup
 	var mu sync.Mutex
@@ -242,7 +294,7 @@ func main() {
 			go func(i int, eng string) {
 				defer wg.Done()
 				defer func() { <-sem }()
-				eo := runOn(eng, mods[i], bins[i], cases[i].Calls, cases[i].Mask, cases[i].All)
+				eo := runOn(eng, mods[i], bins[i], cases[i].Calls, cases[i].Mask, cases[i].All, libs[i])
 				mu.Lock()
 				cases[i].Engines[eng] = eo
 				mu.Unlock()
